@@ -1,6 +1,4 @@
 SPECIFICATION TraceSpec
-CONSTANTS
-  Bug = "none"
-  Deviations = {"F38", "F39"}
+INVARIANTS NotAccepted ReplayOK OpsFit ServerIndexOK
 CONSTRAINT Track
 POSTCONDITION Report
